@@ -350,7 +350,8 @@ func c09Events(c *Ctx, cs c09Case, out *GenOut) {
 const c09Schema = `
 type Query { user: User, friend: User, users: [User], node: Node, other: Node, a: Bc, aBc: Bc, pet: Pet }
 interface Node { id: ID! }
-type User implements Node { id: ID! name: String email: String friend: User bc: Bc }
+type User implements Node { id: ID! name: String email: String friend: User bc: Bc role: Role }
+enum Role { ADMIN MEMBER }
 type Pet implements Node { id: ID! name: String email: String owner: User }
 type Bc { id: ID! name: String email: String friend: Bc bc: Bc user: User }
 `
@@ -375,7 +376,7 @@ func c09Targeted(r *proto.Rng) (c09Case, string) {
 	s1, s2 := "\n"+sels[pr[0]]+"\n", "\n"+sels[pr[1]]+"\n"
 	shape := pr[0] + "/" + pr[1]
 	attack := proto.Pick(r, []string{"shared-typename-one-op", "shared-typename-two-ops", "shared-typename-two-types", "alias-concatenation",
-		"typename-like-generated", "fragment-like-generated", "fragment-impl-like-fragment", "nested-abstract-inline"})
+		"typename-like-generated", "fragment-like-generated", "fragment-impl-like-fragment", "nested-abstract-inline", "fragment-or-typename-like-enum"})
 	ops := ""
 	switch attack {
 	case "shared-typename-one-op":
@@ -407,6 +408,27 @@ func c09Targeted(r *proto.Rng) (c09Case, string) {
 	case "fragment-impl-like-fragment":
 		// fragment F on Node generates FUser / FPet; another fragment is called FUser
 		ops = fmt.Sprintf("query Q {\n  node { ...F }\n  user { ...FUser }\n}\nfragment F on Node { %s }\nfragment FUser on User { %s }\n", "\nid\n", s2)
+	case "fragment-or-typename-like-enum":
+		// a fragment (or a typename option) called like a schema enum that the operations also use: the enum's Go type
+		// and the struct need the same name — an unavoidable clash, in whichever order the two are first needed
+		first := r.Bool()
+		viaTypename := r.Bool()
+		shape = fmt.Sprint("struct-first=", first, "/typename=", viaTypename)
+		var a, b string
+		if viaTypename {
+			a = "  # @genqlient(typename: \"Role\")\n  friend {\n id\n }\n"
+		} else {
+			a = "  friend {\n ...Role\n }\n"
+		}
+		b = "  user {\n role\n }\n"
+		if first {
+			ops = "query Q {\n" + a + b + "}\n"
+		} else {
+			ops = "query Q {\n" + b + a + "}\n"
+		}
+		if !viaTypename {
+			ops += "fragment Role on User {\n id\n name\n}\n"
+		}
 	case "nested-abstract-inline":
 		// a composite field below an abstract field is converted once per implementation: must be recognised as the same
 		ops = fmt.Sprintf("query Q {\n  node {\n    id\n    ... on Node {\n ... on User {\n friend { %s }\n }\n ... on Pet {\n owner { %s }\n }\n }\n  }\n  other {\n ... on User {\n bc {\n id\n user { %s }\n }\n }\n }\n}\n", s1, s2, s1)
@@ -438,6 +460,14 @@ func c09One(c *Ctx, cs c09Case, key string) {
 		c.Res.Count("outcome:" + cs.Attack + ":rejected: " + errSignature(stripPos(out.Err.Error())))
 	default:
 		c.Res.Count("outcome:" + cs.Attack + ":generated")
+		if cs.Attack == "fragment-or-typename-like-enum" {
+			// the enum Role and a struct Role cannot both be declared: success means one of the two places was given the
+			// other's Go type
+			d := parseGoDecls(out.Files["generated.go"])
+			_, isStruct := d.structs["Role"]
+			_, isNamed := d.named["Role"]
+			c.Res.Add(proto.Finding{Kind: "violation", Class: "wrong-type-reused", What: fmt.Sprintf("a fragment/typename called Role and the enum Role both need the Go type name Role; generation succeeded (Role is a struct: %v, a string type: %v), so one of the two places uses the other's type", isStruct, isNamed), Case: cs})
+		}
 	}
 	c09Events(c, cs, out)
 	if c.Res.Evaluations%150 == 1 {
